@@ -5,10 +5,6 @@
 import Kopf.Props.C02
 namespace Kopf.C02
 
-/-- All stored records of the owned handlers carry the same purpose. -/
-def UniformOn (owned : List Id) (P : Store) : Prop :=
-  ∃ p : String, ∀ i ∈ owned, ∀ r, P i = some r → r.purpose = some p
-
 /-- with uniform purposes, "extras" means: every stored record has a purpose other than the reason -/
 theorem extras_purpose {cfg : Cfg} {P : Store} {now : Tick} (hsub : ∀ i ∈ cfg.selected, i ∈ cfg.owned)
     (hu : UniformOn cfg.owned P) (hex : extras cfg P now = true) :
